@@ -36,6 +36,23 @@ STRENGTHENED = {
     "C18-m3": "missed at first: every formatter clause is now also checked through `$t(..)` references (direct, with arguments, chained, inherited)",
     "C20-m3": "missed at first: up to all seven formatter families at once over up to four namespaces",
     "C20-m4": "missed at first: the plural key counted by a range in a later locale added to the generator",
+    "C01-m5": "round 4: caught after references were placed at the very start / end of a string (a resolved number / boolean literal then starts the value)",
+    "C01-m6": "round 4: caught after probe expressions got argument values that mention each other's names (`x = y, y = x` with locals)",
+    "C02-m5": "round 4: caught after literal keys got one type per key (integral / huge floats) and every probe project carries literal keys",
+    "C02-m6": "round 4: missed at first; overlapping float branches in every probe project and counts that walk the bounds themselves first",
+    "C03-m5": "round 4: first seen only as a broken correspondence (the default locale's own empty value made every project fail); empty-value family fixed",
+    "C03-m6": "round 4: the generated crate does not compile (no input beyond the project): C03 now compiles a probe crate; reported as no-failing-input-found",
+    "C07-m5": "round 4: first only a broken correspondence; both mismatch directions are now generated and judged by an independent oracle",
+    "C08-m5": "round 4: missed at first; fallback-walk family with a variable per locale and referencing keys present independently of each other",
+    "C08-m6": "round 4: missed at first; same family (inherits chains of depth 2 and more)",
+    "C12-m6": "round 4: missed at first; ASCII white space around request entries, oracle parses the trimmed entry",
+    "C14-m5": "round 4: outside the check at first (match_nested was not run): nested-route harness + specification + 4 theorems; also found defects C14-glued / C14-short (fixed 54cc961)",
+    "C16-m5": "round 4: missed at first; `provide_again` (a nested <I18nContextProvider> below an existing context) added",
+    "C17-m5": "round 4: outside the check at first (the generated component was not rendered): real-render mode added",
+    "C17-m6": "round 4: outside the check at first (the generated get_translations() was not called): real-render mode, several renders per process",
+    "C18-m5": "round 4: outside the check at first (code only compiled without icu_compiled_data): harness fmt_np_h with a recording custom provider",
+    "C18-m6": "round 4: caught after views made under one locale are rendered after set_locale",
+    "C19-m5": "round 4: missed at first (an existing file reported missing was skipped silently): `.yml` names, and LocaleFileNotFound on a complete project is a violation",
     "C10-m1": "missed at first (different first errors under permutation were tolerated): diagnostics of the post-decoding stages are now required to be identical under permutation, with cyclic / doubly-broken projects in the corpus",
 }
 rows = []
